@@ -4,7 +4,7 @@ E1 lock-step BFS (depth-bounded: node creation makes the space infinite) over hi
 create / copy / import / attach / replace / delete / prune / expand, against a set model of
 the registry.
 """
-from mc import core, e1
+from mc import core, e1, witness
 from mc.core import Node, problem
 
 from metapype.eml import validate, references
@@ -434,7 +434,100 @@ def expand(item):
     return {"key": key, "state_probs": [], "n_state_checks": 0, "succ": succ}
 
 
+def scale_work(item):
+    """outside the BFS: (mass) tens of thousands of nodes created in one process, directly, by copy and by import - ids
+    never collide and every node stays retrievable; (sibling-replace) a child replaced by one of its own siblings, every
+    pair of positions among 3..5 same-named children, with and without deletion - whatever the resulting child list, no node
+    still listed may be unregistered and, with deletion, no discarded node may stay registered"""
+    kind, payload = item
+    acc = core.Acc()
+    core.reset_store()
+    if kind == "mass":
+        how, n = payload
+        case = {"scale": "mass", "how": how, "n": n}
+        nodes = []
+        if how == "create":
+            nodes = [Node("n") for _ in range(n)]
+        elif how == "copy":
+            base = Node("r")
+            for i in range(99):
+                base.add_child(Node("c"))
+            nodes = witness.preorder(base)
+            while len(nodes) < n:
+                nodes += witness.preorder(base.copy())
+        else:
+            from metapype.model import metapype_io
+            doc = "<r>" + "<c><d/></c>" * 499 + "</r>"
+            while len(nodes) < n:
+                nodes += witness.preorder(metapype_io.from_xml(doc))
+        ids = [x.id for x in nodes]
+        if len(set(ids)) != len(ids):
+            seen, first = {}, None
+            for i, v in enumerate(ids):
+                if v in seen:
+                    first = (seen[v], i)
+                    break
+                seen[v] = i
+            acc.add_problem(problem("ids_collide", case, expected="pairwise distinct ids", observed={"nodes": len(ids),
+                                    "distinct": len(set(ids)), "first_collision_between_nodes": first}, op="mass-" + how))
+        lost = sum(1 for x in nodes if Node.get_node_instance(x.id) is not x)
+        if lost:
+            acc.add_problem(problem("live_node_unregistered", case, expected="every node retrievable by its id",
+                                    observed={"not_retrievable": lost, "of": len(nodes)}, op="mass-" + how))
+        acc.count("scale_nodes", len(nodes))
+    else:
+        n = payload
+        cnt = 0
+        for i in range(n):
+            for j in range(n):
+                if i == j:
+                    continue
+                for delete in (True, False):
+                    core.reset_store()
+                    parent = Node("dataset", id="P")
+                    kids = []
+                    for k in range(n):
+                        c = Node("creator", id=f"K{k}")
+                        c.add_child(Node("organizationName", id=f"K{k}o"))
+                        parent.add_child(c)
+                        kids.append(c)
+                    case = {"scale": "sibling-replace", "n": n, "old": i, "new": j, "delete_old": delete}
+                    cnt += 1
+                    try:
+                        parent.replace_child(kids[i], kids[j], delete_old=delete)
+                    except Exception:  # noqa  (what such a call should do to the child list is outside the statement)
+                        continue
+                    reach, stack = {}, [parent]
+                    while stack:
+                        x = stack.pop()
+                        if id(x) not in reach:
+                            reach[id(x)] = x
+                            stack.extend(x.children)
+                    bad_live = [x.id for x in reach.values() if Node.get_node_instance(x.id) is not x]
+                    if bad_live:
+                        acc.add_problem(problem("live_node_unregistered", case, expected="nodes still in the tree stay registered",
+                                                observed=sorted(bad_live), op="replace"))
+                    if delete:
+                        gone = [x for k in kids for x in (k, k.children[0] if k.children else None) if x is not None and id(x) not in reach]
+                        still = [x.id for x in gone if Node.get_node_instance(x.id) is x]
+                        if still:
+                            acc.add_problem(problem("discarded_node_still_registered", case, expected="discarded nodes leave the registry",
+                                                    observed=sorted(still), op="replace"))
+        acc.count("scale_sibling_replacements", cnt)
+    return acc
+
+
+def scale_items(tier):
+    big = 70000 if tier == "quick" else 140000
+    return [("mass", ("create", big)), ("mass", ("copy", big)), ("mass", ("import", big)),
+            ("sibling-replace", 3), ("sibling-replace", 4), ("sibling-replace", 5)]
+
+
 def replay(case):
+    if case.get("scale"):
+        item = ("mass", (case["how"], case["n"])) if case["scale"] == "mass" else ("sibling-replace", case["n"])
+        a = scale_work(item)
+        return [p for ps in a.problems.values() for p in ps]
     try:
         w = replay_history(case["history"])
     except PrefixFailed as e:
@@ -446,6 +539,7 @@ def explore(tier):
     config = {"cap": CAP[tier]}
     w = World()
     acc, info = e1.bfs(expand, config, w.canon(), max_depth=DEPTH[tier], sample_every=4999)
+    acc.merge(core.merge_all(core.pmap(scale_work, scale_items(tier))))
     cov = {
         "states": info["states"], "transitions": info["transitions"],
         "traces_validated_against_impl": info["transitions"],
@@ -453,6 +547,10 @@ def explore(tier):
         "exhaustive": False,
         "cap": f"BFS cut at depth {DEPTH[tier]} with at most {CAP[tier]} nodes alive; every history below that bound is covered",
         "levels": info["levels"],
+        "outside_the_bfs": "70 000 (thorough 140 000) nodes in one process by creation, by copying a 100-node tree and by importing a "
+                           "1 000-node document repeatedly: ids pairwise distinct, every node retrievable; a child replaced by one of "
+                           "its own siblings for every pair of positions among 3, 4, 5 same-named children, with and without deletion",
+        "scale_nodes": acc.counts.get("scale_nodes", 0), "scale_sibling_replacements": acc.counts.get("scale_sibling_replacements", 0),
         "rule": "BFS over all histories of create(7 templates)/import(3 documents)/copy/attach/replace(+-delete)/delete(id,+-children)/"
                 "prune(+-strict)/expand; state = forest shape with names, reference contents, id attributes and registered flags "
                 "(creation indices abstracted); after every transition Node.store must equal the model's live set, each id must map "
